@@ -254,6 +254,7 @@ int fv_int_seq(unsigned cap, unsigned nops, const int* ops, const int* args, con
 namespace
 {
 long g_live, g_double, g_countdown; // g_countdown > 0: the g_countdown-th copy/move from now throws
+int g_ctor_throws;                   // the value constructor Tracked(int) throws
 struct Boom
 {
 };
@@ -272,6 +273,8 @@ struct Tracked
     }
     explicit Tracked(int v) : alive(1), val(v)
     {
+        if (g_ctor_throws)
+            throw Boom(); // constructing the new element itself may throw, too
         ++g_live;
     }
     Tracked(const Tracked& o) : alive(1), val(o.val)
@@ -313,6 +316,7 @@ int fv_tracked_step(unsigned cap, unsigned n0, unsigned pre_pop, int op, unsigne
     g_live = 0;
     g_double = 0;
     g_countdown = 0;
+    g_ctor_throws = 0;
     int status = 0;
     {
         fixed_vector<Tracked> v(cap);
@@ -372,6 +376,14 @@ int fv_tracked_step(unsigned cap, unsigned n0, unsigned pre_pop, int op, unsigne
                 v.insert(std::move(t));
                 break;
             }
+            case 10: // positional emplace whose element constructor throws
+                g_ctor_throws = 1;
+                v.emplace(v.begin() + idx, 81);
+                break;
+            case 11: // emplace_back whose element constructor throws
+                g_ctor_throws = 1;
+                v.emplace_back(82);
+                break;
             }
         }
         catch (...)
@@ -379,6 +391,7 @@ int fv_tracked_step(unsigned cap, unsigned n0, unsigned pre_pop, int op, unsigne
             status = 1;
         }
         g_countdown = 0;
+        g_ctor_throws = 0;
         *size_after = v.size();
         *contents_unchanged = 1;
         if (v.size() == *size_before)
